@@ -73,9 +73,15 @@ impl Shadow {
 
     /// one room mutation on `site` at date `d`
     fn mutation(&mut self, g: &mut Gen, site: u64, d: i64, new: bool, keys: u64) -> String {
-        let me = site + 1;
+        let prefix = format!("mut s={} d={} r=0", site, d);
+        self.mutation_with(g, site, site + 1, prefix, new, keys, d)
+    }
+
+    /// `prefix` = the op word and the caller/date/room tokens; `me` = the caller's key
+    #[allow(clippy::too_many_arguments)]
+    fn mutation_with(&mut self, g: &mut Gen, site: u64, me: u64, prefix: String, new: bool, keys: u64, d: i64) -> String {
         let all: Vec<u64> = (1..=keys).collect();
-        let mut line = format!("mut s={} d={} r=0", site, d);
+        let mut line = prefix;
         if new {
             line.push_str(" new=1");
         }
@@ -313,6 +319,256 @@ pub fn c10_case(g: &mut Gen, id: u64, w: &mut impl Write, long: bool) {
     writeln!(w, "obs s=1 r=0").unwrap();
     writeln!(w, "restart s=3").unwrap();
     writeln!(w, "obs s=3 r=0").unwrap();
+}
+
+fn new_shadow(ties: bool) -> Shadow {
+    Shadow {
+        admins: vec![HashSet::new(), HashSet::new(), HashSet::new()],
+        groups: vec![HashSet::new(), HashSet::new(), HashSet::new()],
+        has_room: vec![false, false, false],
+        used: HashSet::new(),
+        date_owner: HashMap::new(),
+        last_date: 0,
+        ngroups: 0,
+        ties,
+    }
+}
+
+/// One C01 case (`mode=fn`): two or three rooms whose definitions change over time, callers in every
+/// relation to them (admin, all-rows member, own-rows member, read-only, former member, user admin,
+/// outsider), and data operations of every shape at dates spread over the history: create, update of an
+/// own / a foreign row, move between rooms, nested sub-entities under a changed and under an UNCHANGED
+/// parent, with inherited and explicit rooms, reference replacement and removal, node deletion, reference
+/// deletion (existing and non-existing reference), reference deletion on the room row.
+pub fn c01_case(g: &mut Gen, id: u64, w: &mut impl Write, long: bool) {
+    let keys = 6u64;
+    let dmax: i64 = if long { 24 } else { 14 };
+    writeln!(w, "case id={} keys={} dmax={} mode=fn", id, keys, dmax).unwrap();
+    let nrooms = 2 + g.below(2) as u64;
+    let mut shadows: Vec<Shadow> = (0..nrooms).map(|_| new_shadow(false)).collect();
+    let mut d: i64 = 1;
+    // room definitions by key 1 (sometimes key 2 creates its own room)
+    for r in 0..nrooms {
+        let me = if r > 0 && g.chance(1, 4) { 2 } else { 1 };
+        let prefix = format!("rmut k={} d={} r={}", me, d, r);
+        let l = shadows[r as usize].mutation_with(g, 0, me, prefix, true, keys, d);
+        writeln!(w, "{}", l).unwrap();
+        // make sure most rooms grant something to somebody: a second mutation with rights and users
+        if g.chance(3, 4) {
+            let gi = shadows[r as usize].ngroups.min(3);
+            let fresh = gi == shadows[r as usize].ngroups;
+            if fresh {
+                shadows[r as usize].ngroups += 1;
+            }
+            let ent = 1 + g.below(3);
+            let (s1, a1) = *g.pick(&[(1, 1), (1, 0), (1, 1), (0, 1)]);
+            let u1 = 2 + g.below(4);
+            let u2 = 2 + g.below(4);
+            writeln!(
+                w,
+                "rmut k={} d={} r={} grp={} g{}.r={}:{}:{},0:1:0 g{}.u={}+,{}+ g{}.ua={}+",
+                me, d, r, gi, gi, ent, s1, a1, gi, u1, u2, gi, me
+            )
+            .unwrap();
+            shadows[r as usize].groups[0].insert(gi);
+        }
+    }
+    let steps = if long { 14 + g.below(14) } else { 8 + g.below(10) };
+    // shadow of the data: handle -> (entity, room?, author), references
+    let mut rows: Vec<(u64, usize, Option<u64>, u64)> = vec![];
+    let mut edges: Vec<(u64, usize, u64)> = vec![];
+    let mut next_handle: u64 = 0;
+    let pick_room = |g: &mut Gen| -> Option<u64> {
+        if g.chance(1, 8) {
+            None
+        } else {
+            Some(g.below(nrooms as usize) as u64)
+        }
+    };
+    for _ in 0..steps {
+        if g.chance(2, 3) && d < dmax {
+            d += 1 + g.below(2) as i64;
+            if d > dmax {
+                d = dmax;
+            }
+        }
+        let k = 1 + g.below(keys as usize) as u64;
+        let kind = g.weighted(&[5, 5, 3, 6, 3, 2, 3, 3, 1, 4]);
+        match kind {
+            0 => {
+                // create
+                let e = 1 + g.below(3);
+                let room = pick_room(g);
+                let h = next_handle;
+                next_handle += 1;
+                let rs = room.map(|r| format!(" room={}", r)).unwrap_or_default();
+                writeln!(w, "new k={} d={} h={} e={}{} v={}", k, d, h, e, rs, g.below(90)).unwrap();
+                rows.push((h, e, room, k));
+            }
+            1 if !rows.is_empty() => {
+                // update: own row half of the time
+                let (h, _, _, author) = *g.pick(&rows);
+                let caller = if g.chance(1, 2) { author } else { k };
+                writeln!(w, "upd k={} d={} h={} v={}", caller, d, h, g.below(90)).unwrap();
+            }
+            2 if !rows.is_empty() => {
+                // move between rooms (with or without a field change: without, nothing is written)
+                let (h, _, _, author) = *g.pick(&rows);
+                let caller = if g.chance(1, 3) { author } else { k };
+                let room = g.below(nrooms as usize) as u64;
+                if g.chance(4, 5) {
+                    writeln!(w, "upd k={} d={} h={} room={} v={}", caller, d, h, room, g.below(90)).unwrap();
+                } else {
+                    writeln!(w, "upd k={} d={} h={} room={}", caller, d, h, room).unwrap();
+                }
+            }
+            3 => {
+                // nested mutation
+                let f = g.weighted(&[5, 2, 2]);
+                let (se, de) = match f {
+                    0 => (1, 1),
+                    1 => (1, 2),
+                    _ => (2, 1),
+                };
+                let parents: Vec<_> = rows.iter().filter(|r| r.1 == se).cloned().collect();
+                let parent_new = parents.is_empty() || g.chance(1, 5);
+                let (h, caller) = if parent_new {
+                    let h = next_handle;
+                    next_handle += 1;
+                    (h, k)
+                } else {
+                    let p = g.pick(&parents);
+                    (p.0, if g.chance(1, 2) { p.3 } else { k })
+                };
+                let nchild = if f == 0 { 1 + g.below(2) } else { 1 };
+                let mut cs: Vec<String> = vec![];
+                let mut used: Vec<u64> = vec![h];
+                let mut new_rows: Vec<(u64, usize, Option<u64>, u64)> = vec![];
+                for _ in 0..nchild {
+                    let cands: Vec<_> = rows.iter().filter(|r| r.1 == de && !used.contains(&r.0)).cloned().collect();
+                    // prefer a child already referenced by the parent: the parent then stays unchanged
+                    let linked: Vec<_> = cands.iter().filter(|c| edges.contains(&(h, f, c.0))).cloned().collect();
+                    if !cands.is_empty() && !g.chance(1, 4) {
+                        let c = if !linked.is_empty() && g.chance(3, 4) { *g.pick(&linked) } else { *g.pick(&cands) };
+                        used.push(c.0);
+                        let mut t = format!("h{}", c.0);
+                        if g.chance(3, 4) {
+                            t.push_str(&format!(":v{}", g.below(90)));
+                        }
+                        if g.chance(1, 6) {
+                            t.push_str(&format!(":r{}", g.below(nrooms as usize)));
+                        }
+                        cs.push(t);
+                        if !edges.contains(&(h, f, c.0)) {
+                            edges.push((h, f, c.0));
+                        }
+                    } else {
+                        let ch = next_handle;
+                        next_handle += 1;
+                        used.push(ch);
+                        let mut t = format!("n{}:v{}", ch, g.below(90));
+                        let mut room = None;
+                        if g.chance(1, 3) {
+                            let r = g.below(nrooms as usize) as u64;
+                            t.push_str(&format!(":r{}", r));
+                            room = Some(r);
+                        }
+                        cs.push(t);
+                        new_rows.push((ch, de, room, caller));
+                        edges.push((h, f, ch));
+                    }
+                }
+                let mut line = format!("nest k={} d={} h={}", caller, d, h);
+                if parent_new {
+                    line.push_str(&format!(" pn={}", se));
+                }
+                let proom = if parent_new { pick_room(g) } else if g.chance(1, 6) { Some(g.below(nrooms as usize) as u64) } else { None };
+                if let Some(r) = proom {
+                    line.push_str(&format!(" room={}", r));
+                }
+                if parent_new || g.chance(1, 4) {
+                    line.push_str(&format!(" v={}", g.below(90)));
+                }
+                line.push_str(&format!(" f={} c={}", f, cs.join("+")));
+                writeln!(w, "{}", line).unwrap();
+                if parent_new {
+                    rows.push((h, se, proom, caller));
+                }
+                for mut nr in new_rows {
+                    if nr.2.is_none() {
+                        nr.2 = proom;
+                    }
+                    rows.push(nr);
+                }
+            }
+            4 if !edges.is_empty() => {
+                // remove every reference of a field
+                let (h, f, _) = *g.pick(&edges);
+                let author = rows.iter().find(|r| r.0 == h).map(|r| r.3).unwrap_or(k);
+                let caller = if g.chance(1, 2) { author } else { k };
+                writeln!(w, "null k={} d={} h={} f={}", caller, d, h, f).unwrap();
+                edges.retain(|e| !(e.0 == h && e.1 == f));
+            }
+            5 if !rows.is_empty() => {
+                let (h, _, _, author) = *g.pick(&rows);
+                let caller = if g.chance(1, 2) { author } else { k };
+                writeln!(w, "del k={} d={} h={}", caller, d, h).unwrap();
+                if g.chance(1, 2) {
+                    // keep it in the shadow sometimes: operations on deleted rows are part of the input space
+                    rows.retain(|r| r.0 != h);
+                    edges.retain(|e| e.0 != h && e.2 != h);
+                }
+            }
+            6 if !edges.is_empty() => {
+                let (h, f, c) = *g.pick(&edges);
+                let author = rows.iter().find(|r| r.0 == h).map(|r| r.3).unwrap_or(k);
+                let caller = if g.chance(1, 2) { author } else { k };
+                writeln!(w, "delref k={} d={} h={} f={} c={}", caller, d, h, f, c).unwrap();
+                edges.retain(|e| *e != (h, f, c));
+            }
+            7 if rows.len() >= 2 => {
+                // deletion of a reference that does not exist
+                let a = *g.pick(&rows);
+                let f = if a.1 == 1 { g.below(2) } else { 2 };
+                let de = match f {
+                    0 => 1,
+                    1 => 2,
+                    _ => 1,
+                };
+                if a.1 != 3 {
+                    let cands: Vec<_> = rows.iter().filter(|r| r.1 == de && r.0 != a.0 && !edges.contains(&(a.0, f, r.0))).cloned().collect();
+                    if !cands.is_empty() {
+                        let c = g.pick(&cands);
+                        writeln!(w, "delref k={} d={} h={} f={} c={}", k, d, a.0, f, c.0).unwrap();
+                    }
+                }
+            }
+            8 => {
+                let r = g.below(nrooms as usize);
+                writeln!(w, "deladm k={} d={} r={} i=0", k, d, r).unwrap();
+            }
+            _ => {
+                // the room definition changes: users disabled / enabled, rights replaced, admins changed
+                let r = g.below(nrooms as usize);
+                let me = if g.chance(3, 4) { 1 } else { k };
+                let prefix = format!("rmut k={} d={} r={}", me, d, r);
+                let l = shadows[r].mutation_with(g, 0, me, prefix, false, keys, d);
+                writeln!(w, "{}", l).unwrap();
+            }
+        }
+    }
+    for r in 0..nrooms {
+        writeln!(w, "robs r={}", r).unwrap();
+    }
+}
+
+pub fn gen_c01(seed: u64, n: usize, out: &str, long: bool) {
+    let mut g = Gen::new(seed);
+    let mut w = std::io::BufWriter::new(std::fs::File::create(out).unwrap());
+    for id in 0..n {
+        c01_case(&mut g, id as u64, &mut w, long);
+    }
+    w.flush().unwrap();
 }
 
 pub fn gen_c10(seed: u64, n: usize, out: &str, long: bool) {
